@@ -23,7 +23,10 @@ type treeChecker struct {
 }
 
 // treeInput selects the input family: 0 = F(a); 1 = TL[a]; 2 = attribute-emission
-// templates; 3 = C04 templates; 4 = C14 templates; 5 = C17 HTML templates.
+// templates; 3 = C04 templates; 4 = C14 templates; 5 = C17 HTML templates;
+// 6 = TL[a] with CRLF line endings; 7 = TL[a] with bare-CR line endings;
+// 8 = reference definition + full reference whose label spans a lines and is just
+// below the 999-character label limit.
 func treeInput(kind, a int) []byte {
 	switch kind {
 	case 0:
@@ -36,8 +39,41 @@ func treeInput(kind, a int) []byte {
 		return tmplBytes(c04Templates[a])
 	case 4:
 		return tmplBytes(c14Templates[a])
+	case 8:
+		return longLabelDoc(a)
+	case 6:
+		return tmplBytes(tmplEOL(tlTemplates[a], 1))
+	case 7:
+		return tmplBytes(tmplEOL(tlTemplates[a], 2))
 	}
 	return tmplBytes(c17Templates[a])
+}
+
+// longLabelDoc: "[label]: /u" LF "[x][label]" where label consists of `lines`
+// lines of letters ('a's, the last byte a symbolic letter) totalling 990..997
+// characters including its interior line endings: inside the 999-character limit
+// however the lines are prefixed or indented.
+func longLabelDoc(lines int) []byte {
+	w := (997 - (lines - 1)) / lines
+	var label []byte
+	for i := 0; i < lines; i++ {
+		if i > 0 {
+			label = append(label, '\n')
+		}
+		for k := 0; k < w; k++ {
+			label = append(label, 'a')
+		}
+	}
+	last := nondetByte()
+	assume(isL(last))
+	label[len(label)-1] = last
+	var d []byte
+	d = append(d, '[')
+	d = append(d, label...)
+	d = append(d, "]: /u\n[x]["...)
+	d = append(d, label...)
+	d = append(d, ']')
+	return d
 }
 
 // parseVia parses through the in-memory (0) or the streaming (1) entry point.
